@@ -9,9 +9,10 @@ use std::cell::RefCell;
 use std::io::{self, Cursor, Read, Seek, SeekFrom, Write};
 use std::rc::Rc;
 
-/// schedule kinds: 0 all, 1 one byte, 2 random, 3 "one then all", 4 random + Interrupted
+/// schedule kinds: 0 all, 1 one byte, 2 random, 3 "one then all", 4 random + Interrupted,
+/// 5 random with ONE hard failure (reported once, at call number `fail_at`)
 #[derive(Clone)]
-pub struct Sched { pub kind: u8, pub rng: Rng, pub calls: u64 }
+pub struct Sched { pub kind: u8, pub rng: Rng, pub calls: u64, pub fail_at: u64 }
 impl Sched {
     fn amount(&mut self, n: usize) -> Result<usize, io::Error> {
         self.calls += 1;
@@ -21,6 +22,10 @@ impl Sched {
             1 => Ok(1),
             2 => Ok(1 + self.rng.below(n as u64) as usize),
             3 => Ok(if self.calls == 1 { 1 } else { n }),
+            5 => {
+                if self.calls == self.fail_at { Err(io::Error::new(io::ErrorKind::Other, "destination failure")) }
+                else { Ok(1 + self.rng.below(n as u64) as usize) }
+            }
             _ => {
                 if self.rng.chance(1, 3) { Err(io::Error::new(io::ErrorKind::Interrupted, "interrupted")) }
                 else { Ok(1 + self.rng.below(n as u64) as usize) }
@@ -58,9 +63,29 @@ fn check(rep: &mut Report, _model: &mut Model, cfg: &Cfg, ops: &[Op], kind: u8, 
     // reference: everything through memory
     let reference = build(cfg, ops);
     let spec = spec_of(ops, &reference.results);
+    // (0) a destination that reports ONE hard failure: either a writer call reports an error, or
+    //     the archive is as good as the in-memory one (a failure must not be swallowed)
+    if kind == 5 {
+        let data = Rc::new(RefCell::new(vec![]));
+        let fail_at = 1 + rng.below(60);
+        let sink = ThrottledSink { data: data.clone(), sched: Sched { kind, rng: rng.fork(), calls: 0, fail_at } };
+        let (results, _) = build_into(sink, cfg, ops, || {});
+        let any_err = results.iter().any(|r| r != "ok" && !r.starts_with("id:"));
+        if !any_err {
+            let bytes = data.borrow().clone();
+            let good = read_all(&bytes, cfg).map(|got| got.len() == spec.len() && spec.iter().all(|(n, w)| got.get(n).map(|f| f.content.as_ref().ok() == Some(w)).unwrap_or(false))).unwrap_or(false);
+            if !good {
+                rep.violation("oracle", "C13/sink-failure", json!({"what":"destination-failure-swallowed","layers":cfg.layers}),
+                    "the destination reported a failure, every writer call answered success, and the archive is not the one written", case("sink-failure"));
+                return false;
+            }
+        }
+        rep.count(if any_err { "sink-failure:reported" } else { "sink-failure:harmless" });
+        return true;
+    }
     // (1) sink schedule
     let data = Rc::new(RefCell::new(vec![]));
-    let sink = ThrottledSink { data: data.clone(), sched: Sched { kind, rng: rng.fork(), calls: 0 } };
+    let sink = ThrottledSink { data: data.clone(), sched: Sched { kind, rng: rng.fork(), calls: 0, fail_at: 0 } };
     let (results, finalized) = build_into(sink, cfg, ops, || {});
     let sig = |what: &str, dir: &str| json!({"what": what, "direction": dir, "schedule": kind, "layers": cfg.layers});
     if results != reference.results || finalized != reference.finalized {
@@ -83,7 +108,7 @@ fn check(rep: &mut Report, _model: &mut Model, cfg: &Cfg, ops: &[Op], kind: u8, 
     // (2) source schedule: normal reader.  The property speaks of sources returning fewer bytes
     // than asked, not of interrupted reads: schedule 4 is used without the injected errors here.
     let kind = if kind == 4 { 2 } else { kind };
-    let src = ThrottledSource { inner: Cursor::new(reference.bytes.clone()), sched: Sched { kind, rng: rng.fork(), calls: 0 } };
+    let src = ThrottledSource { inner: Cursor::new(reference.bytes.clone()), sched: Sched { kind, rng: rng.fork(), calls: 0, fail_at: 0 } };
     match read_all_from(src, cfg) {
         Ok(got) => {
             let same = got.len() == spec.len() && spec.iter().all(|(n, w)| got.get(n).map(|f| f.content.as_ref().ok() == Some(w) && f.hash.is_ok()).unwrap_or(false));
@@ -96,7 +121,7 @@ fn check(rep: &mut Report, _model: &mut Model, cfg: &Cfg, ops: &[Op], kind: u8, 
     for n in [reference.bytes.len(), cut] {
         for auth in [true, false] {
             let mem = repair_and_read(&reference.bytes[..n], cfg, auth);
-            let src = ThrottledSource { inner: Cursor::new(reference.bytes[..n].to_vec()), sched: Sched { kind, rng: rng.fork(), calls: 0 } };
+            let src = ThrottledSource { inner: Cursor::new(reference.bytes[..n].to_vec()), sched: Sched { kind, rng: rng.fork(), calls: 0, fail_at: 0 } };
             let thr = match std::panic::catch_unwind(std::panic::AssertUnwindSafe(|| repair_from(src, cfg, auth))) { Ok(x) => x, Err(_) => Err("panic".into()) };
             let thr = thr.and_then(|r| { let got = read_all(&r.out, &Cfg::plain())?; Ok((r.status, r.unfinished, got.into_iter().map(|(k, f)| (k, f.content.unwrap_or_default())).collect::<std::collections::BTreeMap<_, _>>())) });
             match (&mem, &thr) {
@@ -145,7 +170,7 @@ pub fn run(ctx: &Ctx) -> Report {
         let cfg = Cfg::make(&mut rng, (i % 4) as u8);
         let o = GenOpts { max_files: 4, max_piece: CONSTS.chunk.min(200_000) + 300, max_total: if i % 10 == 9 { 5 << 20 } else { 300_000 }, long_name_chance: (0, 1), flushes: true };
         let ops = gen_valid_ops(&mut rng, &o);
-        let kind = (i / 4 % 5) as u8;
+        let kind = (i / 4 % 6) as u8;
         // one byte at a time over megabytes is slow in debug builds: keep those cases small
         let ops = if kind == 1 { let o2 = GenOpts { max_files: 3, max_piece: 5000, max_total: 20_000, long_name_chance: (0, 1), flushes: true }; gen_valid_ops(&mut rng, &o2) } else { ops };
         let ok = check(&mut rep, &mut model, &cfg, &ops, kind, &mut rng);
